@@ -95,6 +95,21 @@ fn set_input_for(rng: &mut Rng, ops: &[Op]) -> Vec<(Key, Vec<u8>)> {
             v.insert(at, (k, stale));
         }
     }
+    if !v.is_empty() && rng.chance(1, 4) {
+        // heavy repetition: every key several times, the list well beyond the lengths at
+        // which sorting routines switch strategy (a sort that does not keep equal keys in
+        // input order must not decide which value wins)
+        let target = 40 + rng.usize_below(160);
+        while v.len() < target {
+            let (k, _) = v[rng.usize_below(v.len())].clone();
+            let first = v.iter().position(|(kk, _)| *kk == k).unwrap();
+            let stale = if rng.bool() { g::gen_value(rng) } else { vec![rng.u8()] };
+            let last = v.iter().rposition(|(kk, _)| *kk == k).unwrap();
+            // anywhere before the last occurrence (which carries the model's value)
+            let at = rng.usize_below(last.max(first) + 1);
+            v.insert(at, (k, stale));
+        }
+    }
     v
 }
 
